@@ -164,15 +164,14 @@ func (c *CheckCtx) boundN() string {
 
 func buildC01(c *CheckCtx) {
 	c.Level = "other"
-	c.Technique = "no-panic / termination / frame contracts: WP over go/ssa for the scanner helpers, pools, position builder, parser wrappers; shape obligations for every grammar action; buffer frame by ownership dataflow; bounded stand-in for the scanner machine as a whole and the LR driver"
+	c.Technique = "no-panic / termination / frame contracts: WP over go/ssa for the scanner helpers, pools, position builder, parser wrappers; Floyd/Houdini invariants over the generated scanner machine proved inductive per run (E-SCAN); shape obligations for every grammar action; buffer frame by ownership dataflow; bounded stand-in for progress and the LR driver"
 	c.addFunctionUnits(func(con *Contract) bool { return hasProp(con, "C01") })
 	c.addGram(gramWant{Shape: true})
 	c.addFrames("C01")
 	c.addScan()
 	c.runBoundedHarness("pkg/parser", "c01_bounded_test.go", "TestVCBoundedC01", []string{"VC_BOUND=" + c.boundN()},
 		"real parser.Parse on prefix·w for 17 mode-setting prefixes and every w over a 27-byte alphabet with |w| <= "+c.boundN()+", 3 version classes, with and without callback, 400 ms watchdog", "panic", "hang", "buffer")
-	c.Explain = "Proved per run (for all inputs): index/slice/nil/type-assertion safety, loop variants and frames of the scanner's helper functions (look-ahead predicates, call/ret/growCallStack, unget, token and position pools, NewLines), of the position builder, of the parser wrappers (NewLexer, NewParser, Parser.Lex/Error, parser.Parse) - each against its contract, with the helper preconditions as obligations at their verified call sites; for all 1014 grammar actions: every type assertion succeeds, no nil dereference, the optional callback is never called when nil, no stale $$ (under the inferred non-terminal contracts); the input buffer and the version are never written (frame over Parse's whole call tree). NOT proved: the generated scanner machine Lex as a whole (its calls satisfy the helper preconditions; progress) and the LR driver loop - for these a bounded stand-in runs the real parser exhaustively over a stated family of short inputs; it is labelled bounded and not counted."
-	c.assume("Lexer.Lex: result non-nil and scanner state well-formed on return (assumed contract; the machine's body is not verified yet)")
+	c.Explain = "Proved per run (for all inputs): index/slice/nil/type-assertion safety, loop variants and frames of the scanner's helper functions (look-ahead predicates, call/ret/growCallStack, unget, token and position pools, NewLines), of the position builder, of the parser wrappers (NewLexer, NewParser, Parser.Lex/Error, parser.Parse) - each against its contract, with the helper preconditions as obligations at their verified call sites; for all 1014 grammar actions: every type assertion succeeds, no nil dereference, the optional callback is never called when nil, no stale $$ (under the inferred non-terminal contracts); the input buffer and the version are never written (frame over Parse's whole call tree). The generated scanner machine Lex is verified as generated (E-SCAN): cut-point invariants are inferred from the template in the contract file and proved inductive on every cut-to-cut path in this run; from them every index/slice expression and helper precondition inside Lex and the preservation of the representation invariant lexinv are discharged, except the obligations listed as unproved_withdrawn (facts about the automaton's language) and the known findings. NOT proved: progress/termination of Lex and the LR driver loop - for these a bounded stand-in runs the real parser exhaustively over a stated family of short inputs; it is labelled bounded and not counted."
 	c.assume("goyacc LR driver: calls Lex before Error, keeps its stack discipline (trusted generated code)")
 }
 
@@ -190,15 +189,14 @@ func buildC06(c *CheckCtx) {
 
 func buildC04(c *CheckCtx) {
 	c.Level = "other"
-	c.Technique = "contracts (WP over go/ssa) on the functions that give tokens their text, offsets and lines; leaf-value obligations for every grammar action; pools"
+	c.Technique = "contracts (WP over go/ssa) on the functions that give tokens their text, offsets and lines; E-SCAN obligations over the generated scanner machine; leaf-value obligations for every grammar action; pools; bounded stand-in on the real lexer for tiling and lines"
 	c.addFunctionUnits(func(con *Contract) bool { return hasProp(con, "C04") })
 	c.addGram(gramWant{Shape: true, Leaf: true})
 	c.addScan()
 	c.runBoundedHarness("internal/scanner", "c04_tokens_test.go", "TestVCBoundedC04", []string{"VC_BOUND=" + c.boundN()},
 		"real lexer on prefix·w for 22 mode-setting prefixes and every w over a 30-byte alphabet with |w| <= "+c.boundN()+", versions 7.2 and 7.4: every token and free-floating token has Value == source[start:end], offsets in range, increasing and without overlap, correct 1-based lines (LF, CRLF, lone CR), and full coverage when no lexer error was reported",
 		"token-no-position", "token-range", "token-text", "token-overlap", "token-gap", "token-line")
-	c.Explain = "Proved per run: setTokenPosition gives a token the offsets ts..te and the lines GetLine yields for ts and te-1; addFreeFloatingToken appends exactly one fresh token with the given id, Value = data[ps:pe] and that position; NewLines.Append keeps the line-start table strictly increasing and GetLine returns the 1-based line of an offset against it; ungetCnt/ungetStr shrink p and te together and never below ts; pools hand out distinct cells (C18); for every grammar action a leaf node's Value is the Value of a token stored in that node (concatenations in token order). NOT proved yet: the scanner machine's own obligations (Value == data[ts:te] at exit, tiling without gaps, the new_line action recording every line start, classification of trivia) - they need the E-SCAN pass."
-	c.assume("the generated scanner machine sets tkn.Value = data[ts:te] and calls the helpers with ps == ts, pe == te (not verified yet)")
+	c.Explain = "Proved per run: setTokenPosition gives a token the offsets ts..te and the lines GetLine yields for ts and te-1; addFreeFloatingToken appends exactly one fresh token with the given id, Value = data[ps:pe] and that position; NewLines.Append keeps the line-start table strictly increasing and GetLine returns the 1-based line of an offset against it; ungetCnt/ungetStr shrink p and te together and never below ts; pools hand out distinct cells (C18); for every grammar action a leaf node's Value is the Value of a token stored in that node (concatenations in token order). Over the generated machine Lex (E-SCAN, invariants inferred and proved inductive in this run): Value == data[ts:te] and position == (ts, te) at every return, ps == ts and pe == te at every addFreeFloatingToken call. NOT proved by contracts: tiling without gaps, the new_line action recording every line start, classification of trivia - covered by the bounded stand-in on the real lexer (labelled bounded)."
 }
 
 func init() { propBuilders["C14"] = buildC14 }
